@@ -21,6 +21,7 @@ RULE = (
     ' Also: sequences of walks in one forked process; pyramid objects that were counted / visited / walked BEFORE subpyramid(); filter '
     'objects of several callable kinds incl. falsy ones; a quarter of the parallel runs with statement-boundary delays; fresh interpret'
     'ers with the forkserver / spawn start method and a closure callback.'
+    ' Round 8: long walks (depth 6-7, hundreds of tiles per worker); pyramid objects used at another depth before their depth attribute is set.'
 )
 ASSUMPTIONS = [
     "event-log file order respects happens-before (O_APPEND single-write records)",
